@@ -8,7 +8,16 @@ import subprocess
 
 from . import REPO, VERIF
 
+_NP_BOUND = "batches of length 0, 1, 2, 4, 11 over {0.5, nan, -inf, inf, -1, 0, 1, 2.5, 3, 2.9999999999999996, 1.75} (record arrays), weights {1, scalar 0.5, array (1, 0, 2, 0.5, ...)}, whole batch and split into two successive fill.numpy calls, child templates {Count, Sum, Average, Deviate, Minimize, Bin(2)}; JSON compared up to zero-weight sparse bins; inputs unmodified"
+_NP_CLASSES = ["Count", "Sum", "Average", "Deviate", "Minimize", "Maximize", "Bag", "Bin", "SparselyBin", "CentrallyBin", "IrregularlyBin", "Stack", "Fraction", "Select", "Categorize", "Label", "UntypedLabel", "Index", "Branch"]
+_NP_MOD = {"Count": "count", "Sum": "sum", "Average": "average", "Deviate": "deviate", "Minimize": "minmax", "Maximize": "minmax", "Bag": "bag", "Bin": "bin", "SparselyBin": "sparselybin", "CentrallyBin": "centrallybin", "IrregularlyBin": "irregularlybin", "Stack": "stack", "Fraction": "fraction", "Select": "select", "Categorize": "categorize", "Label": "collection", "UntypedLabel": "collection", "Index": "collection", "Branch": "collection"}
+
 NATIVE = {
+    "C03": [(f"C03:numpy-{K}", f"histogrammar.primitives.{_NP_MOD[K]}.{K}._numpy", "bounded:numpy-equals-rowwise", _NP_BOUND) for K in _NP_CLASSES]
+    + [
+        (f"C03:numpy-{K}-count-first", f"histogrammar.primitives.collection.{K}._numpy", "bounded:numpy-equals-rowwise:count-before-first-quantity", "the same batches on a collection whose first child is a Count followed by a quantity-bearing child")
+        for K in ("UntypedLabel", "Branch")
+    ],
     "C11": [
         ("C11:pickle", "histogrammar.defs.Container.__getstate__", "bounded:pickle-roundtrip",
          "12 trees (depth <= 2) x 7 quantity kinds (lambda, lambda with default, def, string, named, cached, named+cached string) x states {empty, filled, merged} + a JSON-reloaded tree: clone equal with identical JSON, original unchanged and still fillable (fill, fill.numpy), clone and original stay equal under identical further fills"),
